@@ -3493,7 +3493,7 @@ pub fn checks() -> Vec<CheckDef> {
         CheckDef {
             id: "C06",
             level: "fault_enumeration",
-            runs_quick: 2_500,
+            runs_quick: 1_200,
             runs_thorough: 120_000,
             rule: "replicas over the real SqliteStorage (one directory each on tmpfs); after a seeded history one action (commit, undo, rebuild with/without renumbering, sync, expire) is run once fault-free to enumerate its storage calls and to record, through freshly opened handles, the state after each of its transaction commits; it is then re-executed from a copy of the directory once per storage-call index with {error returned, caller dropped (transaction abandoned)}, the handle is closed and a fresh SqliteStorage opened: it must see exactly the state after the commits that had returned before the interruption (never an intermediate state, never less than a returned commit). evaluations = executions. Non-trivial: at least one point swept; distinct = distinct trace hash.",
             gen: gen_c06,
@@ -3506,7 +3506,7 @@ pub fn checks() -> Vec<CheckDef> {
         CheckDef {
             id: "C15",
             level: "exploration",
-            runs_quick: 200_000,
+            runs_quick: 300_000,
             runs_thorough: 12_000_000,
             rule: "seeded scripts on 1-3 replicas: commits that create tasks and change status (pending, completed, deleted, recurring, unknown, removed), outright deletes, syncs that bring other replicas' status changes and deletions, undo, and explicit rebuilds with and without renumbering in any sequence (so that prior working sets have gaps and entries whose task was completed, deleted or removed by sync). After every rebuild (explicit, or implied by sync/undo): index 0 empty, members exactly the pending/recurring tasks each once, without renumbering survivors keep their number and newcomers follow all numbers in use, with renumbering 1..n without gaps in previous relative order; after every commit: existing numbers undisturbed, tasks that became pending appended. Non-trivial: at least one rebuild was checked; distinct = distinct trace hash.",
             gen: gen_c15,
@@ -3519,7 +3519,7 @@ pub fn checks() -> Vec<CheckDef> {
         CheckDef {
             id: "C19",
             level: "exploration",
-            runs_quick: 150_000,
+            runs_quick: 400_000,
             runs_thorough: 8_000_000,
             rule: "seeded editing sessions through the high-level Task API (status, description, priority, entry/wait/due/modified, start/stop/done, tags incl. invalid and synthetic names, annotations, user-defined attributes incl. reserved names, dependencies, raw set_value) under a simulated clock that runs forwards, backwards, stands still or jumps years between sessions, interleaved with syncs and other replicas' changes. After each session: the stored task equals the object the caller held and an independent task model (M-task); every recorded old value is the value the property had; tags, annotations, dependencies, UDAs, synthetic tags and dependency_map(true) read back equal what the model derives from the stored data. Non-trivial: at least one session committed; distinct = distinct trace hash.",
             gen: gen_c19,
@@ -3532,7 +3532,7 @@ pub fn checks() -> Vec<CheckDef> {
         CheckDef {
             id: "C20",
             level: "exploration",
-            runs_quick: 200_000,
+            runs_quick: 500_000,
             runs_thorough: 12_000_000,
             rule: "task sets over every status and modification time (exactly 180 days, one second either side, future, missing, non-numeric, signed, out of range), replicas calling expire_tasks with their clock pinned to chosen instants (jumps of days to months), concurrent edits of the same tasks on other replicas, all sync orders. Oracle: exactly the tasks with status deleted and a readable modification time more than 180 days before the caller's clock disappear, recorded as one Delete each; after quiescence no purged task exists on any replica or in the chain replay. Non-trivial: at least one task was purged; distinct = distinct trace hash.",
             gen: gen_c20,
@@ -3597,7 +3597,7 @@ pub fn checks() -> Vec<CheckDef> {
         CheckDef {
             id: "C05",
             level: "fault_enumeration",
-            runs_quick: 300_000,
+            runs_quick: 250_000,
             runs_thorough: 2_000_000,
             rule: "seeded histories on 1-2 replicas followed by arbitrary operation batches (valid or not: create of existing, update/delete of missing tasks, delete-then-create, property removal, undo points, arbitrary old values); after every commit the unsynced list must be the prior list plus the batch in order and tasks must equal M-apply(base state, unsynced) (the documented operation model); one further commit is then executed once per storage call index and fault kind {error before, error after, process stop} and the store must be exactly the before- or the after-state. evaluations = executions. Non-trivial: at least one point swept.",
             gen: gen_c05,
@@ -3610,7 +3610,7 @@ pub fn checks() -> Vec<CheckDef> {
         CheckDef {
             id: "C03",
             level: "exploration",
-            runs_quick: 200_000,
+            runs_quick: 300_000,
             runs_thorough: 3_000_000,
             rule: "round-structured histories: 2-3 replicas quiescent on a common state each commit one batch (per task: create+updates with distinct properties, or a delete), then synchronize; every round is re-executed from a copy of the common state under every order of first syncs (N! orders) followed by seeded interleaved catch-up syncs; each execution must equal the documented-winner model (M-winner) and all executions must agree. evaluations = executions (round x order). Non-trivial: a round in which at least two replicas committed something; distinct = distinct trace hash.",
             gen: gen_c03,
@@ -3623,7 +3623,7 @@ pub fn checks() -> Vec<CheckDef> {
         CheckDef {
             id: "C01",
             level: "exploration",
-            runs_quick: 100_000,
+            runs_quick: 60_000,
             runs_thorough: 12_000_000,
             rule: "seeded scenarios: 1-5 replicas, scripts of commit/sync actions (intents resolved through the TaskData API), tied/decreasing/random timestamps, 1/8 of runs with >1MB pending changes; syncs atomic, action order chosen by the seeded scheduler. A run is non-trivial if some sync pulled a remote version and then pushed local changes (a rebase happened); distinct = distinct hash of the (node,label,decision,scheduling choice) trace.",
             gen: gen_c01,
